@@ -700,12 +700,28 @@ def c09(tier, rng, rep, only=None):
         decls = (corpus.gen_arb_ints(rng.fork("arbint"), tier) + corpus.gen_arb_floats(rng.fork("arbfloat"), tier)
                  + corpus.gen_arb_strs(rng.fork("arbstr"), tier))
     g = flows.GuardRun("arb" if tier == "quick" else "arb_t", decls)
+    # the proved decision procedure (Sem/ArbFloatDecide) on every float declaration, before anything is
+    # built: `total` is a theorem about every byte string, `panics (b ..)` names a failing input
+    gd = flows.GuardRun("arb_decide", [d for d in decls if d.family() == "float"])
+    for d in gd.decls:
+        gd.add_ops(d, [("arb_decide", "")])
+    gd.run_model()
+    decision = {d.id: (gd.by_decl[d.id][0].model or "unknown") for d in gd.decls}
+    witness = {}
     for d in decls:
         ins = corpus.arb_byte_inputs(d, rng.fork(d.id), tier)
-        g.add_ops(d, [("arb", "(b%s)" % "".join(" %d" % b for b in bs)) for bs in ins])
+        ops = [("arb", "(b%s)" % "".join(" %d" % b for b in bs)) for bs in ins]
+        dec = decision.get(d.id, "")
+        if dec.startswith("panics "):
+            witness[d.id] = dec[len("panics "):]
+            ops.append(("arb", witness[d.id]))
+        g.add_ops(d, ops)
     dropped = run_guard_arb(g, rep, rng)
     n = 0
     cls = {}
+    dec_stats = {"total": 0, "panics": 0, "unknown": 0, "total_decls_with_real_runs": 0, "witness_panics_confirmed": 0}
+    for did_, dec in decision.items():
+        dec_stats[dec.split()[0] if dec.split() and dec.split()[0] in ("total", "panics") else "unknown"] += 1
     for c in g.cases:
         if c.decl.id not in g.live or c.impl is None:
             continue
@@ -714,6 +730,20 @@ def c09(tier, rng, rep, only=None):
         impl, model = canon_nan(c.impl, d), canon_nan(c.model, d)
         kind = "ok" if impl.startswith("ok") else impl
         cls[(d.family(), kind)] = cls.get((d.family(), kind), 0) + 1
+        dec = decision.get(d.id, "unknown")
+        if dec == "total" and impl in ("panic", "hang"):
+            # theorem C09_float_decided_total says this declaration's generator returns a valid value for
+            # every byte string: no recorded class can excuse a panic here
+            rep.violation("arbitrary(%s) %s on %s, whose generator is PROVED total and valid for every byte string (C09_float_decided_total)"
+                          % (c.arg, "panicked" if impl == "panic" else "did not terminate", d.id), case_payload(c, g, {"decision": dec}))
+            continue
+        if d.id in witness and c.arg == witness[d.id]:
+            if impl == "panic":
+                dec_stats["witness_panics_confirmed"] += 1
+            else:
+                rep.violation("the model proves that arbitrary(%s) panics on %s (C09_float_decided_panics) but the implementation returns %s"
+                              % (c.arg, d.id, c.impl), case_payload(c, g, {"decision": dec}), no_input=True)
+                continue
         if impl in ("panic", "hang"):
             k = c09_class(d)
             if k and model == "panic" and impl == "panic":
@@ -727,7 +757,10 @@ def c09(tier, rng, rep, only=None):
     rep.coverage.update({"evaluations": n, "distinct_nontrivial": sum(v for (f, k), v in cls.items() if k == "ok"),
                          "rule": "integer / float / string declarations deriving Arbitrary; byte strings: empty, all 1-byte inputs, all-0x00 / all-0xFF of every length up to 64, boundary patterns, encodings of special floats and of case-expanding / white-space characters, random; the real arbitrary() runs under catch_unwind and a watchdog thread; a panic or hang is a violation unless it is in a recorded class AND the model predicts it",
                          "outcome_classes": {"%s/%s" % k: v for k, v in sorted(cls.items())}, "exhaustive": False,
-                         "declarations": len(decls)})
+                         "declarations": len(decls),
+                         "float_decision_procedure": dict(dec_stats, rule="arb_float_decide (proved sound: C09_float_decided_total / _panics) evaluated by the model on every float declaration of the corpus; `total` declarations may not panic on any input tried, whatever class they resemble; for `panics` declarations the named input is run on the real generator")})
+    if only is None and (not dec_stats["total"] or not dec_stats["panics"]):
+        rep.violation("self-check: the decision procedure never answered %s" % ("total" if not dec_stats["total"] else "panics"), {"kind": "coverage"}, no_input=True)
     for c in g.cases[:: max(1, len(g.cases) // 6)][:6]:
         rep.samples.append({"decl": c.decl.id, "inner": c.decl.inner, "arg": c.arg, "impl": c.impl, "model": c.model})
 
@@ -1570,6 +1603,8 @@ def c10(tier, rng, rep, only=None):
             vals = vals[:: max(1, len(vals) // 60)]
         info = runner.DeclInfo(d)
         ops = [("ser", val_sexp(v)) for v in vals]
+        if d.family() in ("int", "str"):
+            ops += [("ser_text", val_sexp(v)) for v in vals]
         if "TryFrom" in info.traits or "From" in info.traits:
             # the value to serialize may also have been obtained through the derived conversion
             ops += [("ser_conv", val_sexp(v)) for v in vals[::2]]
@@ -1585,6 +1620,12 @@ def c10(tier, rng, rep, only=None):
             rep.violation("serialization panicked on %s" % c.arg, case_payload(c, g))
             continue
         n += 1
+        if c.op == "ser_text":
+            fields["json_text_vs_model_writer"] = fields.get("json_text_vs_model_writer", 0) + 1
+            if c.impl != c.model:
+                rep.violation("JSON text of the value obtained from %s: implementation %s, model writer (serde_json's encoding of the inner value) %s"
+                              % (c.arg, c.impl, c.model), case_payload(c, g), no_input=(c.model is None))
+            continue
         kv = parse_kv(c.impl) or {}
         for k, v in kv.items():
             fields[k] = fields.get(k, 0) + 1
@@ -1712,6 +1753,11 @@ def c08(tier, rng, rep, only=None):
                     rep.violation("well-formed declaration %s is now refused: %s" % (d.id, payload["rustc"][0][:200]), payload)
                 elif (not impl_rej) and not ref_says_ok:
                     rep.violation("declaration %s must be refused (%s, reference %s) but compiles" % (d.id, cls, ref), payload)
+                elif (not impl_rej) and ref_says_ok and cls.startswith("rustc:known:"):
+                    # a recorded "well-formed but refused" finding that no longer reproduces: the
+                    # property demands acceptance, and the declaration is accepted
+                    rep.notes.append("recorded finding %s does not reproduce on %s: the declaration is accepted" % (cls, d.id))
+                    classes["recorded_refusal_no_longer_reproduces"] = classes.get("recorded_refusal_no_longer_reproduces", 0) + 1
                 else:
                     rep.violation("model and rustc disagree on %s: model %s, rustc %s" % (d.id, mv, payload["rustc"][0][:160]), payload, no_input=True)
                 continue
@@ -2140,9 +2186,19 @@ def inventory_check(g, rep, what, decl_filter=None):
             continue
         n += 1
         info = runner.DeclInfo(d)
-        mine = recs.get(d.id, [])
+        mine = [list(r) for r in recs.get(d.id, [])]
+        # `#[automatically_derived]` says "derived by rustc" only on the traits rustc derives; on an
+        # impl the macro writes itself (Borrow, AsRef, From, ...) the attribute is a lint hint and the
+        # impl is inspected like any other hand-written one
+        std_derived = set(DERIVE_PATH.values()) | AUTO_MARKERS
         cs = [c for c in g.by_decl.get(d.id, []) if c.op == "inventory"]
         model = [x.split("|") for x in (cs[0].model or "").split(" ;; ")] if cs and cs[0].model else []
+        written = {r[1] for r in model if r[0] == "fn"}      # traits whose impl the macro writes itself (e.g. float Ord)
+        for r in mine:
+            if r[0] == "fn" and r[-1] == "auto=1" and (r[1] not in std_derived or r[1] in written):
+                r[-1] = "auto=0"
+            if r[0] == "impl" and len(r) > 3 and r[3] == "auto=1" and (r[1] not in std_derived or r[1] in written):
+                r[3] = "auto=0"
         payload = {"kind": "inventory", "decl": d.to_json(), "decl_rust": runner.decl_module(d, None).split("pub fn run")[0]}
         if not mine:
             rep.violation("no expansion records for %s" % d.id, payload, no_input=True)
